@@ -267,10 +267,21 @@ class Engine:
         return z3.Const('%s!%d' % (name, self.nfresh), sort)
 
     # ------------------------------------------------------------------ inputs
+    def _conc_default(self, name, lo, hi):
+        """concrete replay of a path's model: an input the symbolic path never created (it ended earlier, e.g. in an unsupported operation) is not
+        constrained by that path - any value of its declared range continues the replay"""
+        if lo is not None and hi is not None:
+            return (lo + hi) / 2 if lo != hi else lo
+        if lo is not None:
+            return lo + 1
+        if hi is not None:
+            return hi - 1
+        return 0
+
     def real(self, name, lo=None, hi=None, lo_open=False, hi_open=False):
         if self.mode == 'conc':
             self.inputs[name] = ('real', None)
-            return float(self.values[name])
+            return float(self.values[name]) if name in self.values else float(self._conc_default(name, lo, hi))
         v = z3.Real(name)
         self.inputs[name] = ('real', v)
         self.ranges[name] = (lo if not is_sym(lo) else None, hi if not is_sym(hi) else None)
@@ -286,7 +297,7 @@ class Engine:
     def int(self, name, lo=None, hi=None):
         if self.mode == 'conc':
             self.inputs[name] = ('int', None)
-            return int(self.values[name])
+            return int(self.values[name]) if name in self.values else int(self._conc_default(name, lo, hi))
         v = z3.Int(name)
         self.inputs[name] = ('int', v)
         cs = []
@@ -301,7 +312,7 @@ class Engine:
     def bool(self, name):
         if self.mode == 'conc':
             self.inputs[name] = ('bool', None)
-            return bool(self.values[name])
+            return bool(self.values.get(name, False))
         v = z3.Bool(name)
         self.inputs[name] = ('bool', v)
         return SymBool(v)
@@ -1044,7 +1055,7 @@ class SymReal:
             return res
         if out is not None:
             return NotImplemented
-        ins = [i.item() if isinstance(i, np.ndarray) else i for i in inputs]
+        ins = [i.item() if isinstance(i, (np.ndarray, np.generic)) else i for i in inputs]      # numpy scalars (np.float64 ...) as python numbers
         return scalar_ufunc(name, ins)
 
 
@@ -1228,7 +1239,7 @@ class SymComplex:
         if any(isinstance(i, np.ndarray) and i.ndim > 0 for i in inputs):
             arrs = [i.astype(object) if isinstance(i, np.ndarray) else _obj0(i) for i in inputs]
             return ufunc(*arrs)
-        ins = [i.item() if isinstance(i, np.ndarray) else i for i in inputs]
+        ins = [i.item() if isinstance(i, (np.ndarray, np.generic)) else i for i in inputs]
         if name == 'exp':
             return ins[0].exp()
         if name in ('conjugate', 'conj'):
